@@ -443,3 +443,151 @@ func jsonControlBound(c *Ctx) {
 	}
 	c.R.Check(ok, "writeQuotedString/control-bound", where, "all bytes below 0x20 take the escape branch", "the control-character test does not cover every byte below 0x20: a string containing such a byte is written with the raw control character inside the quotes, which is not valid JSON")
 }
+
+// getParamFields: the GET transport builds the request from URL parameters: each of `query`, `operationName`, `variables`,
+// `extensions` ends up in the RawParams member of the same name (case-insensitively).  Decoding `extensions` into Variables
+// (or the reverse) silently moves the persisted-query extension out of the extension's reach: a wrong hash is not rejected
+// and nothing is registered.
+func getParamFields(c *Ctx) {
+	c.R.Rule("get-param-fields", "GET.Do: the value of URL parameter P (query, operationName, variables, extensions) is stored / decoded into RawParams.P and nowhere else", 2)
+	fn := c.fn(pkgTransport, "GET.Do")
+	if fn == nil {
+		return
+	}
+	n := 0
+	for _, f := range an.InlineScope(fn) {
+		for _, call := range an.CallsIn(f, func(_ ssa.CallInstruction, ci an.CalleeInfo) bool { return ci.FullName() == "(net/url.Values).Get" }) {
+			key, isC := an.ConstString(call.Common().Args[1])
+			if !isC {
+				continue
+			}
+			vc, _ := call.(*ssa.Call)
+			if vc == nil {
+				continue
+			}
+			// where does the value go: a store into a RawParams field, or a decode whose target is the address of one
+			var fields []string
+			var visit func(v ssa.Value, depth int)
+			seen := map[ssa.Value]bool{}
+			visit = func(v ssa.Value, depth int) {
+				if seen[v] || depth > 6 {
+					return
+				}
+				seen[v] = true
+				for _, r := range an.Referrers(v) {
+					switch x := r.(type) {
+					case *ssa.Store:
+						if x.Val == v {
+							if fa, ok := x.Addr.(*ssa.FieldAddr); ok && an.NamedIs(fa.X.Type(), pkgGraphql, "RawParams") {
+								fields = append(fields, fieldNameOf(fa))
+							} else if an.IsLocalCell(x.Addr) {
+								for _, ld := range an.CellLoads(x.Addr) {
+									visit(ld, depth+1)
+								}
+							}
+						}
+					case *ssa.Phi, *ssa.MakeInterface, *ssa.ChangeType, *ssa.Convert:
+						visit(x.(ssa.Value), depth+1)
+					case *ssa.Call:
+						// strings.NewReader(v) → jsonDecode(reader, &raw.Field)
+						if res := ssa.Value(x); res != nil {
+							if tgt := c.decodeTarget(x); tgt != nil {
+								if fa, ok := an.Strip(tgt).(*ssa.FieldAddr); ok && an.NamedIs(fa.X.Type(), pkgGraphql, "RawParams") {
+									fields = append(fields, fieldNameOf(fa))
+								}
+								continue
+							}
+							if x.Call.StaticCallee() != nil && (an.CalleeOf(x).FullName() == "strings.NewReader" || an.CalleeOf(x).FullName() == "bytes.NewBufferString") {
+								visit(res, depth+1)
+							}
+							// same-package helper that decodes into its pointer argument
+							if h := x.Call.StaticCallee(); h != nil && h.Pkg != nil && h.Pkg.Pkg.Path() == pkgTransport {
+								for _, a := range x.Call.Args {
+									if fa, ok := an.Strip(a).(*ssa.FieldAddr); ok && an.NamedIs(fa.X.Type(), pkgGraphql, "RawParams") {
+										fields = append(fields, fieldNameOf(fa))
+									}
+								}
+							}
+						}
+					}
+				}
+			}
+			visit(vc, 0)
+			if len(fields) == 0 {
+				continue
+			}
+			n++
+			bad := ""
+			for _, fld := range fields {
+				if !strings.EqualFold(fld, key) {
+					bad = "URL parameter `" + key + "` ends up in RawParams." + fld
+				}
+			}
+			c.R.Check(bad == "", "GET.Do/param:"+key, c.ipos(call), "stored into RawParams."+fields[0], bad+": the request the executor and the extensions see is not the one the client sent (e.g. the persisted-query extension disappears, so a wrong hash is executed and nothing is registered)")
+		}
+	}
+	// the same pairing made through a helper: decodeQueryParam(w, query, "variables", &raw.Variables)
+	for _, f := range an.InlineScope(fn) {
+		for _, call := range an.CallsIn(f, func(_ ssa.CallInstruction, ci an.CalleeInfo) bool {
+			return ci.Static != nil && ci.Static.Pkg != nil && ci.Static.Pkg.Pkg.Path() == pkgTransport && len(ci.Static.Blocks) > 0
+		}) {
+			key, fld := "", ""
+			for _, a := range call.Common().Args {
+				if s, ok := an.ConstString(an.Strip(a)); ok {
+					key = s
+				}
+				if fa, ok := an.Strip(a).(*ssa.FieldAddr); ok && an.NamedIs(fa.X.Type(), pkgGraphql, "RawParams") {
+					fld = fieldNameOf(fa)
+				}
+			}
+			if key == "" || fld == "" {
+				continue
+			}
+			n++
+			c.R.Check(strings.EqualFold(key, fld), "GET.Do/param:"+key, c.ipos(call), "handed to "+call.Common().StaticCallee().Name()+" together with &RawParams."+fld, "URL parameter `"+key+"` is decoded into RawParams."+fld+": the request the executor and the extensions see is not the one the client sent")
+		}
+	}
+	if n < 2 {
+		c.R.Fail("get-param-fields traced only %d URL parameters into RawParams", n)
+	}
+}
+
+// apqVersionGate: a persisted-query extension with any version other than 1 is rejected: the comparison guarding the
+// "unsupported version" error is `Version != 1`.
+func apqVersionGate(c *Ctx) {
+	c.R.Rule("version-gate", "extension.AutomaticPersistedQuery: the edge `extension.Version != 1` only reaches returns of a non-nil error (every version but 1 is refused before the cache is touched)", 1)
+	fns := c.moduleFuncs(func(p string) bool { return p == pkgExtension })
+	n := 0
+	for _, fn := range fns {
+		for _, e := range an.CondEdges(fn) {
+			if e.Fact.Op != token.NEQ && e.Fact.Op != token.EQL && e.Fact.Op != token.GTR && e.Fact.Op != token.LSS && e.Fact.Op != token.GEQ && e.Fact.Op != token.LEQ {
+				continue
+			}
+			var fld ssa.Value
+			var k int64
+			for _, pr := range [][2]ssa.Value{{e.Fact.X, e.Fact.Y}, {e.Fact.Y, e.Fact.X}} {
+				if kk, isC := an.ConstInt(pr[1]); isC {
+					if fa, ok := loadAddr(pr[0]).(*ssa.FieldAddr); ok && fieldNameOf(fa) == "Version" {
+						fld, k = pr[0], kk
+					}
+					if f, ok := pr[0].(*ssa.Field); ok && fieldName2(f) == "Version" {
+						fld, k = pr[0], kk
+					}
+				}
+			}
+			if fld == nil {
+				continue
+			}
+			// judge the edge that leads to the error
+			ok1, _ := c.failureStops(fn, e.To, fns, 0)
+			if !ok1 {
+				continue // the accepting edge
+			}
+			n++
+			c.R.Check(e.Fact.Op == token.NEQ && k == 1, shortFn(topFn(fn))+"/version-refused", c.ipos(e.If), "Version != 1 is refused", sprintf("the version test that refuses a request is `Version %s %d`, not `Version != 1`: requests with another (or no) version are accepted and read or write the persisted-query cache", e.Fact.Op, k))
+		}
+	}
+	if n == 0 {
+		c.R.Bad("AutomaticPersistedQuery/version-refused", "graphql/handler/extension/apq.go", "no test of the extension's Version leads to a refusal")
+	}
+}
